@@ -50,8 +50,7 @@ def norm_index(h_n, idx):
     return ok, ni
 
 
-def fresh_arr(prefix, kind):
-    return z3.Const(fresh_name(prefix), z3.ArraySort(z3.IntSort(), KIND_SORT[kind]))
+from .values import fresh_arr, sel, elem_eq, arr_store  # noqa: E402
 
 
 # --------------------------------------------------------------------- getitem
@@ -73,7 +72,7 @@ def getitem(I, st, obj, idx, node):
             out = []
             for s, b in I.fork_bool(st, ok):
                 if b:
-                    out.append((s, Sym(z3.Select(h.arr, ni), h.k)))
+                    out.append((s, sel(h.arr, h.k, ni)))
                 else:
                     out += raise_(s, IndexError, "index out of range", node=node)
             return out
@@ -101,7 +100,7 @@ def getitem(I, st, obj, idx, node):
         out = []
         for s, b in I.fork_bool(st, ok):
             if b:
-                out.append((s, Sym(z3.Select(obj.arr, ni), obj.k)))
+                out.append((s, sel(obj.arr, obj.k, ni)))
             else:
                 out += raise_(s, IndexError, "index out of range", node=node)
         return out
@@ -184,10 +183,8 @@ def sseq_slice(s, lo, hi, st):
     ln = z3.If(b > a, b - a, z3.IntVal(0))
     arr = fresh_arr("slice", s.k)
     j = z3.Int(fresh_name("j"))
-    st.assume(z3.ForAll([j], z3.Implies(z3.And(0 <= j, j < ln), z3.Select(arr, j) == z3.Select(s.arr, a + j))))
-    r = SSeq(arr, ln, s.k)
-    r.src = (s, a)
-    return r
+    st.assume(z3.ForAll([j], z3.Implies(z3.And(0 <= j, j < ln), elem_eq(arr, j, s.arr, a + j, s.k))))
+    return SSeq(arr, ln, s.k)
 
 
 def setitem(I, st, obj, idx, v, node):
@@ -285,6 +282,20 @@ def call_method(I, st, recv, name, args, kwargs, node):
             if name in ("close", "aclose"):
                 st.trace.append(Event("call", f"iter.{name}", [recv], lineno=lineno(node)))
                 return [(st, None)]
+    if isinstance(recv, BoundMethod) and recv.name == "__dict__" and isinstance(recv.recv, Ref):
+        # obj.__dict__.<method>: a view on the instance fields
+        h = st.get(recv.recv)
+        if name == "update":
+            for a in args:
+                for k, v in I.dict_concrete(st, a, node).items():
+                    h.fields[k] = v
+                    st.written.add((recv.recv.id, k))
+            for k, v in kwargs.items():
+                h.fields[k] = v
+            return [(st, None)]
+        if name == "copy":
+            return [(st, st.alloc(HDict(items=dict(h.fields))))]
+        raise Unsupported(f"__dict__.{name}", node)
     if kind_of(recv) == "str" and not isinstance(recv, Ref):
         return str_method(I, st, recv, name, args, kwargs, node)
     if isinstance(recv, SSeq):
@@ -331,7 +342,7 @@ def list_method(I, st, ref, h, name, args, kwargs, node):
         return clist_method(I, st, ref, h, name, args, kwargs, node)
     n, arr, k = h.n, h.arr, h.k
     if name == "append":
-        h.arr = z3.Store(arr, n, to_term(args[0], k))
+        h.arr = arr_store(arr, k, n, args[0], to_term)
         h.n = n + 1
         return [(st, None)]
     if name == "__len__":
@@ -415,7 +426,7 @@ def list_method(I, st, ref, h, name, args, kwargs, node):
     if name == "reverse":
         na = fresh_arr("rev", k)
         j = z3.Int(fresh_name("j"))
-        st.assume(z3.ForAll([j], z3.Implies(z3.And(0 <= j, j < n), z3.Select(na, j) == z3.Select(arr, n - 1 - j))))
+        st.assume(z3.ForAll([j], z3.Implies(z3.And(0 <= j, j < n), elem_eq(na, j, arr, n - 1 - j, k))))
         h.arr = na
         return [(st, None)]
     raise Unsupported(f"{tag}.{name} on abstract list", node)
@@ -430,7 +441,13 @@ def clist_method(I, st, ref, h, name, args, kwargs, node):
         items.insert(0, args[0])
         return [(st, None)]
     if name == "extend":
-        items.extend(I.iter_concrete(st, args[0], node))
+        a0 = args[0]
+        if not items and isinstance(a0, Ref) and isinstance(st.get(a0), HList) and not st.get(a0).concrete:
+            src = st.get(a0)
+            st.trace.append(Event("read", f"{src.tag}.__iter__", [a0], lineno=lineno(node), held=I.held_locks(st)))
+            h.items, h.arr, h.n, h.k = None, src.arr, src.n, src.k
+            return [(st, None)]
+        items.extend(I.iter_concrete(st, a0, node))
         return [(st, None)]
     if name == "insert":
         if isinstance(args[0], int):
@@ -539,6 +556,11 @@ def cdict_method(I, st, ref, h, name, args, kwargs, node):
     if name == "setdefault":
         return [(st, d.setdefault(args[0], args[1] if len(args) > 1 else None))]
     if name == "update":
+        if len(args) == 1 and not d and not kwargs and isinstance(args[0], Ref) and isinstance(st.get(args[0]), HDict) and not st.get(args[0]).concrete:
+            # {}.update(abstract): the receiver becomes an equal abstract map
+            src = st.get(args[0])
+            h.items, h.dom, h.val, h.size, h.kk, h.vk = None, src.dom, src.val, src.size, src.kk, src.vk
+            return [(st, None)]
         for a in args:
             d.update(I.dict_concrete(st, a, node) if not isinstance(a, (tuple, list)) else dict(a))
         d.update(kwargs)
@@ -623,7 +645,7 @@ def iter_next(I, st, ref, node, default=None, has_default=False):
         hh = s1.get(ref)
         if b:
             hh.cursor = Sym(cur + 1, "int")
-            out.append((s1, Sym(z3.Select(s.arr, cur), s.k)))
+            out.append((s1, sel(s.arr, s.k, cur)))
         elif has_default:
             out.append((s1, default))
         else:
@@ -733,7 +755,7 @@ def instantiate(I, st, cls, args, kwargs, node):
                 rs = I.call_method(st, a, "__iter__", [], {}, node)
                 return seq(rs, lambda s, it: instantiate(I, s, list, [it], {}, node))
             if isinstance(h, HIter) and isinstance(h.items, SSeq):
-                sub = sseq_slice(h.items, h.cursor, None, st)
+                sub = h.items if (isinstance(h.cursor, int) and h.cursor == 0) else sseq_slice(h.items, h.cursor, None, st)
                 h.cursor = Sym(h.items.n, "int")
                 return [(st, st.alloc(HList(arr=sub.arr, n=sub.n, k=sub.k)))]
         if isinstance(a, SSeq):
@@ -1017,7 +1039,7 @@ def builtin_reversed(I, st, args, kwargs, node):
     if isinstance(a, SSeq):
         arr = fresh_arr("rev", a.k)
         j = z3.Int(fresh_name("j"))
-        st.assume(z3.ForAll([j], z3.Implies(z3.And(0 <= j, j < a.n), z3.Select(arr, j) == z3.Select(a.arr, a.n - 1 - j))))
+        st.assume(z3.ForAll([j], z3.Implies(z3.And(0 <= j, j < a.n), elem_eq(arr, j, a.arr, a.n - 1 - j, a.k))))
         return [(st, st.alloc(HIter(SSeq(arr, a.n, a.k), 0)))]
     items = I.iter_concrete(st, a, node)
     return [(st, st.alloc(HIter(list(reversed(items)), 0)))]
@@ -1082,3 +1104,4 @@ def install(I):
     reg(getattr, builtin_getattr)
     reg(hasattr, builtin_hasattr)
     reg(callable, builtin_callable)
+    reg(threading.Lock, lambda I, st, args, kwargs, node: [(st, st.alloc(HLock()))])
